@@ -216,6 +216,8 @@ def main():
     print(subprocess.run([sys.executable, os.path.join(here, 'rs2lean_vm.py'), '--stub-on-failure', os.path.join(REPO, 'src', 'vm.rs')], stdout=subprocess.PIPE, stderr=subprocess.STDOUT, text=True).stdout.strip())
     print(subprocess.run([sys.executable, os.path.join(here, 'rs2lean_state.py'), '--stub-on-failure', os.path.join(REPO, 'src', 'vm.rs')], stdout=subprocess.PIPE, stderr=subprocess.STDOUT, text=True).stdout.strip())  # `impl State` -> GeneratedState.lean (Proofs/C20c.lean)
     print(subprocess.run([sys.executable, os.path.join(here, 'rs2lean_api.py'), '--stub-on-failure', os.path.join(REPO, 'src', 'lib.rs')], stdout=subprocess.PIPE, stderr=subprocess.STDOUT, text=True).stdout.strip())  # the API layer of lib.rs -> GeneratedApi.lean (Proofs/C08d.lean)
+    print(subprocess.run([sys.executable, os.path.join(here, 'rs2lean_tostr.py'), '--stub-on-failure', os.path.join(REPO, 'src', 'lib.rs')], stdout=subprocess.PIPE, stderr=subprocess.STDOUT, text=True).stdout.strip())  # to_str / escape of lib.rs -> GeneratedToStr.lean (Proofs/C17c.lean)
+    print(subprocess.run([sys.executable, os.path.join(here, 'rs2lean_expand.py'), '--stub-on-failure', os.path.join(REPO, 'src', 'expand.rs')], stdout=subprocess.PIPE, stderr=subprocess.STDOUT, text=True).stdout.strip())  # Expander of expand.rs -> GeneratedExpand.lean (Proofs/C12c.lean)
     print(subprocess.run([sys.executable, os.path.join(here, 'rs2lean_compile.py'), '--stub-on-failure', os.path.join(REPO, 'src', 'compile.rs')], stdout=subprocess.PIPE, stderr=subprocess.STDOUT, text=True).stdout.strip())  # src/compile.rs -> GeneratedCompile.lean (Proofs/C03d.lean)
 
 if __name__ == '__main__':
